@@ -873,6 +873,12 @@ pub fn price_near(rng: &mut Rng, ds: &DatasetSpec, sym: &str, from: usize) -> f6
         return 0.25 * rng.range(4, 800) as f64;
     };
     let base = if rng.one_in(2) { bid } else { ask };
+    if rng.one_in(12) {
+        // the neighbouring double: one ulp above or below the quote (a "tolerance" added to a
+        // comparison shows only here, and only for small prices)
+        let bits = base.to_bits();
+        return f64::from_bits(if rng.one_in(2) { bits + 1 } else { bits.saturating_sub(1) });
+    }
     let step = *rng.pick(&[0.0, 0.0, 0.25, -0.25, 0.5, -0.5, 1.0, -1.0, 3.0, -3.0]);
     let mut p = if rng.one_in(12) { base * (0.5 + rng.f64()) } else { base + step };
     if !(p > 0.0) {
